@@ -11,7 +11,7 @@
 (*           outside the selected result column changed                          (C11)   *)
 (* Rejected events are collected (not stopped at) so that the remainder of the log is    *)
 (* still examined.                                                                       *)
-EXTENDS Integers, Sequences, TLC, Json, IOUtils, HalVecZnx, HalNorm, HalDft, Encoding
+EXTENDS Integers, Sequences, TLC, Json, IOUtils, HalVecZnx, HalNorm, HalDft, Encoding, Scratch
 
 Rec == ndJsonDeserialize(IOEnv.TRACE)
 
@@ -64,11 +64,16 @@ SeqOK(e) ==
   ELSE IF e.did = prev.did THEN e.chunk = prev.chunk + 1
   ELSE prev.chunk = prev.nchunks - 1 /\ e.chunk = 0
 
+\* C12: every scratch-taking library call of the event ran inside a window of exactly the declared
+\* size: no failed take, arena discipline respected, canaries intact (Scratch.tla)
+ScrOK(e) == \A r \in 1..Len(e.scr) : \A c \in 1..Len(e.scr[r].calls) : CallOK(e.scr[r].calls[c])
+
 Verdict(e, k) ==
      (IF EnumOK(e) /\ SeqOK(e) THEN <<>> ELSE << <<k, "enum">> >>) \o
      (IF SemOK(e)  THEN <<>> ELSE << <<k, IF Sem2OK(e) THEN "sem1" ELSE "sem">> >>)
   \o (IF BeOK(e)   THEN <<>> ELSE << <<k, "be">> >>)
   \o (IF FillOK(e) THEN <<>> ELSE << <<k, "fill">> >>)
+  \o (IF ScrOK(e)  THEN <<>> ELSE << <<k, "scr">> >>)
 
 Init == i = 1 /\ bad = <<>> /\ prev = [did |-> 0, chunk |-> 0, nchunks |-> 1]
 Next == /\ i <= Len(Rec)
